@@ -41,7 +41,7 @@ Theorem C04_statement_parser_fuel : forall w00 fb w0 nm w1 (l : StStmtProofs.sl 
   StExprProofs.all_triv token StInstance.tok_class w00 -> t_kind fb = KFunctionBlock ->
   StExprProofs.all_triv token StInstance.tok_class w0 -> t_kind nm = KIdentifier ->
   StExprProofs.all_triv token StInstance.tok_class w1 ->
-  StStmtProofs.wf_l token StInstance.tok_class StInstance.op_level true l ->
+  StStmtProofs.wf_l token StInstance.tok_class t_text StInstance.tok_num StInstance.op_level true l ->
   StExprProofs.all_triv token StInstance.tok_class w2 -> t_kind en = KEndFunctionBlock ->
   StExprProofs.all_triv token StInstance.tok_class w3 ->
   (StStmtProofs.absorbs token l = true -> w2 = []) ->
@@ -54,7 +54,7 @@ Theorem C04_declaration_parser_fuel : forall w00 fb w0 nm (bl : list (DeclProofs
   StExprProofs.all_triv token StInstance.tok_class w0 -> t_kind nm = KIdentifier ->
   Forall (DeclProofs.wf_wb token StInstance.tok_class) bl ->
   StExprProofs.all_triv token StInstance.tok_class w1 ->
-  StStmtProofs.wf_l token StInstance.tok_class StInstance.op_level true l ->
+  StStmtProofs.wf_l token StInstance.tok_class t_text StInstance.tok_num StInstance.op_level true l ->
   StExprProofs.all_triv token StInstance.tok_class w2 -> t_kind en = KEndFunctionBlock ->
   StExprProofs.all_triv token StInstance.tok_class w3 ->
   (StStmtProofs.absorbs token l = true -> w2 = []) ->
